@@ -9,7 +9,7 @@ from . import futb_model as M
 HEALTHY = H.PHEALTHY
 # VERIF_FUTB_SCALE < 1 thins the random/sampled part of the three checks (used only by the mutation self-test)
 SCALE = float(os.environ.get('VERIF_FUTB_SCALE', '1'))
-REASON = {0: [0], 1: [1], 2: [2], 3: [3], 4: [4], 5: [5]}   # pool state -> _errors canonical value
+REASON = {0: [0], 1: [1], 2: [2], 3: [3], 4: [4], 5: [5], 7: [2]}   # pool state -> _errors canonical value
 
 
 def uses_keyspace_flag(pv):
@@ -160,7 +160,8 @@ class Oracle(object):
                     self.cursor = j + 1
         if task_exp and not sends:
             self.task_nosend(task_exp, pools, pre_exc, st, op)
-        if self.which == 'C17' and not sends and not pre_done and not (st['exc'] and st['exc'][0] == 5) and (
+        timed_out = bool(sc.get('timeout')) and env.clock.now > 1005.0      # the client timeout elapsed: the walk may stop (C15's business)
+        if self.which == 'C17' and not sends and not pre_done and not timed_out and not (st['exc'] and st['exc'][0] == 5) and (
                 op[0] == 'start' or new_page or (task_exp and task_exp['kind'] == 'retry')):
             # a send_request with error_no_hosts=True ends with a message or with NoHostAvailable
             self.flag('walk.neither_sent_nor_failed', 'after %r no message was sent and the request did not fail with NoHostAvailable '
